@@ -1,0 +1,11 @@
+// SPDX-FileCopyrightText: 2026 The Pion community <https://pion.ly>
+// SPDX-License-Identifier: MIT
+
+//go:build verif && verif_pc && !js
+
+package webrtc
+
+// VerifOpsDone blocks until every operation queued so far has run.
+func (pc *PeerConnection) VerifOpsDone() {
+	pc.ops.Done()
+}
